@@ -1,5 +1,7 @@
 package s2
 
+import "math"
+
 // C13 — answers depend on current geometry and options only, never on call history.
 // ShapeIndex bookkeeping: a symbolic history of Add / Remove / Build / Reset
 // operations (operation codes and operands are solver variables) is executed on
@@ -87,4 +89,41 @@ func Harness_C13_index_history() {
 	} else {
 		vrC13History(4)
 	}
+}
+
+// Loop.Invert on a loop whose index has already been built (or not): every later query
+// reflects the current geometry.  A concrete 40-vertex loop (above the brute-force
+// threshold, so ContainsPoint goes through the ShapeIndex); the sequence of queries and
+// inversions is a solver variable.
+func vrC13Loop() *Loop {
+	var pts []Point
+	for i := 0; i < 40; i++ {
+		// a small circle of radius ~0.3 rad around the +x axis, counter-clockwise
+		ang := 2 * 3.141592653589793 * float64(i) / 40
+		pts = append(pts, PointFromCoords(1, 0.3*math.Cos(ang), 0.3*math.Sin(ang)))
+	}
+	return LoopFromPoints(pts)
+}
+
+func Harness_C13_loop_invert_history() {
+	vr.Domain("FPX")
+	vr.Unwind(100000)
+	l := vrC13Loop()
+	inside := PointFromCoords(1, 0.05, -0.02)
+	outside := PointFromCoords(0.2, 1, 0.1)
+	inverted := false
+	for step := 0; step < 3; step++ {
+		op := vr.Int("op")
+		vr.Assume(vr.And(op >= 0, op <= 1))
+		if op == 0 {
+			l.Invert()
+			inverted = !inverted
+		} else {
+			vr.Assert("query after any history: interior point", l.ContainsPoint(inside) == !inverted)
+			vr.Assert("query after any history: exterior point", l.ContainsPoint(outside) == inverted)
+		}
+	}
+	vr.Assert("final query: interior point", l.ContainsPoint(inside) == !inverted)
+	vr.Assert("final query: exterior point", l.ContainsPoint(outside) == inverted)
+	vr.Reach("end")
 }
